@@ -765,3 +765,62 @@ def instances(tier):
     out = _c04_instances_4(tier)
     out.append(Inst(iocb_abort, {}, budget=120 if tier == "quick" else 600))
     return out
+
+
+# ------------------------------------------------------------------ requests to an answering and a silent peer, among other timers
+from bacpypes.task import FunctionTask as _FunctionTask                        # noqa: E402
+
+
+@meta(bounds="one client stack, one answering server and one station that never answers; requests to both submitted in the same "
+             "instant (symbolic order), retry count symbolic 0..1; unrelated application timers already scheduled (symbolic: "
+             "none, one far in the future, one far and one near) - the transaction timers share the scheduler with them",
+      outside="more than two concurrent requests (C11), lossy medium (txn)",
+      stubs=["virtual clock (task._time)", "asyncore.loop -> clock advance", "task._Trigger -> wake flag", "fresh singletons per path"])
+def among_timers(d):
+    w = World()
+    lan = nl.FaultLAN([], world=w)
+    retries = d.int(0, 1, 'retries')
+    cdev = nl.make_device("c", 10, numberOfApduRetries=retries, apduTimeout=APDU_TIMEOUT)
+    client = nl.AppStack(cdev, lan)
+    server = nl.AppStack(nl.make_device("s", 20), lan, app_timeout=APP_TIMEOUT)
+    nl.RawPeer(33, lan)
+    fired = []
+    others = d.pick(["none", "far", "far+near", "near+far"], 'other_timers')
+    for name in others.split("+"):
+        if name == "far":
+            _FunctionTask(fired.append, "far").install_task(delta=3600.0)
+        elif name == "near":
+            _FunctionTask(fired.append, "near").install_task(delta=0.5)
+    silent_first = d.bool('silent_peer_first')
+    dests = [Address(33), server.address] if silent_first else [server.address, Address(33)]
+    for i, dest in enumerate(dests):
+        client.request(nl.private_transfer(dest, bytes([i])))
+    bound = (retries + 1) * APDU_TIMEOUT / 1000.0
+    w.run(until=w.clock + bound + 0.25)
+    got = [(str(c.pduSource), nl.outcome_kind(c)) for c in client.confirmations]
+    want = sorted([(str(server.address), "ack"), ("33", "abort")])
+    if sorted(got) != want:
+        raise Violation("outcomes-within-bound", got=got, want=want, retries=retries, other_timers=others,
+                        silent_first=silent_first, bound=bound)
+    if nl.residue(client) or nl.residue(server):
+        raise Violation("residue", client=nl.residue(client), server=nl.residue(server))
+    if "near" in others and fired != ["near"]:
+        raise Violation("unrelated-timer", fired=fired)
+    # nothing of the two transactions is left in the scheduler: the next thing due, if any, is the far timer
+    w.run(until=w.clock + 3600.0)
+    if len(client.confirmations) != 2:
+        raise Violation("late-outcome", n=len(client.confirmations))
+    if "far" in others and fired[-1:] != ["far"]:
+        raise Violation("unrelated-timer", fired=fired)
+    if not w.idle():
+        raise Violation("leftover-timer")
+    d.reach()
+
+
+_c04_instances_5 = instances
+
+
+def instances(tier):
+    out = _c04_instances_5(tier)
+    out.append(Inst(among_timers, {}, budget=120 if tier == "quick" else 600))
+    return out
